@@ -78,7 +78,9 @@ pub fn run(out: &mut Out, seed: u64, thorough: bool) {
         let s: Schema = if i % 2 == 1 { gen::rand_schema(&mut rng, &gen::SchemaOpts { wide_ids: false, globals: i % 3 != 0, max_depth: 4 }) } else { gen::s3() };
         dynspec::install(s.clone());
         let big = i % 25 == 24;
-        let doc = gen::rand_doc(&mut rng, &s, &DocOpts { max_tags: if big { 60 } else if i % 5 == 3 { 20 } else { 12 }, big, unk_prob: (if i % 3 == 0 { 1 } else { 0 }, 3), ..Default::default() });
+        let long = i % 7 == 6 && !big;
+        let s: Schema = if long { let s2 = gen::rand_schema(&mut rng, &gen::SchemaOpts { wide_ids: true, globals: true, max_depth: 4 }); dynspec::install(s2.clone()); s2 } else { s };
+        let doc = gen::rand_doc(&mut rng, &s, &DocOpts { max_tags: if big { 60 } else if i % 5 == 3 { 20 } else { 12 }, big, unk_prob: (if i % 3 == 0 { 1 } else { 0 }, 3), long_headers: long, ..Default::default() });
         let mut bytes = gen::encode_doc(&doc);
         if big { // exceed the 64 KiB transfer buffer: pad with a root-level global element if there is one
             if let Some(g) = s.entries.iter().find(|e| e.path.len() == 1 && matches!(e.path[0], ebml_iterable::specs::PathPart::Global((None, None))) && e.ty == ebml_iterable::specs::TagDataType::Binary) {
